@@ -19,8 +19,8 @@ Representation choices (all documented because the theorems are about exactly th
 * not modelled (invisible to the property): metrics, `maxPayloadSize` / `recreatePayload` (re-allocates the map
   with the same content), `creationTime`, `CleanStat` except the fields printed by the driver, the `Reset`
   methods used by tests only.
-* atomicity assumptions: each label is one mutex-protected section; `save`'s `gen.size.Add(size)`, executed right
-  after the unlock, is part of the `finish` step (atomic adds commute; only a concurrent `Load` could tell).
+* atomicity assumptions: each label is one mutex-protected section; `Cleaner.Cleanup`'s bucket snapshot and
+  `markStale` are one step (`cleanupBegin`), the bucket visits are separate steps.
 -/
 namespace SV.Cache
 
@@ -164,34 +164,37 @@ def acquire (s : St) (t c k : Nat) : St × Out :=
     (setPc { s with heap := s.heap ++ [⟨c, k, .loading, 0, s.cur c, 0, false, true⟩] } t (.loading c k s.heap.length),
      .loading)
 
-/-- `delete(c.payload, key)` -/
-def unmap (heap : List Entry) (c k : Nat) : List Entry :=
-  heap.map fun e => if e.cache = c ∧ e.key = k then { e with inMap := false } else e
-
-/-- `save` (with the generation counter update that follows it) -/
+/-- `save`: the value is published; an entry that is still wanted (not evicted, cache not released) is assigned to
+the cache's current generation and accounted there, inside the critical section -/
 def save (cfg : Cfg) (s : St) (t c k eid v sz : Nat) : St × Out :=
   match s.heap[eid]? with
   | none => (s, .none)
   | some e =>
-    let size := if e.deleted then 0 else cfg.entrySize + sz
-    (setPc { s with heap := s.heap.set eid { e with val := v, size := size, st := .valid },
-                    gsizeL := addG s.gsizeL e.gen size,
-                    produced := (c, k, v) :: s.produced } t .idle, .value v)
+    if e.deleted then
+      (setPc { s with heap := s.heap.set eid { e with val := v, size := 0, st := .valid },
+                      produced := (c, k, v) :: s.produced } t .idle, .value v)
+    else
+      (setPc { s with heap := s.heap.set eid { e with val := v, size := cfg.entrySize + sz, st := .valid, gen := s.cur c },
+                      gsizeL := addG s.gsizeL (s.cur c) ((cfg.entrySize + sz : Nat) : Int),
+                      produced := (c, k, v) :: s.produced } t .idle, .value v)
 
-/-- `recover` (after a loader error, or from `handlePanic`) -/
-def recover (s : St) (t c k eid : Nat) : St :=
-  match (unmap s.heap c k)[eid]? with
+/-- `recover` (after a loader error, or from `handlePanic`): `if c.payload[key] == e { delete(c.payload, key) }` -
+the caller's own entry leaves the map if it is still in it (`reach_uniq`: it is then the only entry of its key);
+whatever another caller stored under the key in the meantime stays -/
+def recover (s : St) (t _c _k eid : Nat) : St :=
+  match s.heap[eid]? with
   | none => s
-  | some e => setPc { s with heap := (unmap s.heap c k).set eid { e with st := .abandoned } } t .idle
+  | some e => setPc { s with heap := s.heap.set eid { e with st := .abandoned, inMap := false } } t .idle
 
 def relGens (c : Nat) : List Entry → List Int → List Int
   | [], g => g
   | e :: es, g => relGens c es (if e.cache = c ∧ e.inMap then addG g e.gen (-(e.size : Int)) else g)
 
-/-- `Cache.Release` -/
+/-- `Cache.Release`: every map entry is un-accounted and marked deleted (a load still in flight will then save with
+size 0), `payload = nil` -/
 def release (s : St) (c : Nat) : St :=
   { s with gsizeL := relGens c s.heap s.gsizeL,
-           heap := s.heap.map (fun e => if e.cache = c then { e with inMap := false } else e),
+           heap := s.heap.map (fun e => if e.cache = c then { e with inMap := false, deleted := e.inMap || e.deleted } else e),
            relL := mset false s.relL c true }
 
 def evict (stale : Nat → Bool) (c : Nat) (e : Entry) : Bool := e.cache == c && (e.inMap && stale e.gen)
@@ -341,12 +344,19 @@ inductive Op
   | releaseBuckets
 deriving DecidableEq, Repr
 
-def opLabels (s : St) : Op → List Label
+/-- the labels of one whole `Cleaner.Cleanup` call -/
+def cleanupLabels (cfg : Cfg) (s : St) : List Label :=
+  match (cleanupBegin cfg s).2 with
+  | .cleanup true _ _ => .cleanupBegin :: s.buckets.map fun _ => .cleanupBucket
+  | _ => [.cleanupBegin]
+
+/-- the critical sections a sequential call consists of (`seqOp_eq_run` in CacheRefine) -/
+def opLabels (cfg : Cfg) (s : St) : Op → List Label
   | .newCache => [.newCache]
   | .get c k o => if (lookup s.heap c k).isSome then [.get 0 c k] else [.get 0 c k, .finish 0 o]
   | .release c => [.release c]
   | .rotate => [.rotate]
-  | .cleanup => .cleanupBegin :: s.buckets.map fun _ => .cleanupBucket
+  | .cleanup => cleanupLabels cfg s
   | .cleanEmpty => [.cleanEmpty]
   | .releaseBuckets => [.releaseBuckets]
 
